@@ -633,11 +633,11 @@ Qed.
 Lemma unknown_step : forall c st o k, Inv c st -> k < st_next st -> ~ known st (Id k) ->
   ~ known (fst (step c st o)) (Id k).
 Proof.
-  intros c st o k [ND [F N]] Hk NK [k' [s' [E [Hs' [Hid U]]]]]. inversion E; subst k'. clear E.
+  intros c st o k [ND [F N]] Hk NK [k' [s' [E [Hs' [Hid U]]]]]. inversion E; subst. clear E.
   apply NK. rewrite Forall_forall in F.
   destruct o as [q|i e|i|i|dt|a outs| |se outs]; simpl in *.
   - destruct (accepts c q); simpl in *; [|exists (s_id s'), s'; auto].
-    apply in_app_iff in Hs' as [H|[<-|[]]]; [exists (s_id s'), s'; auto|]. simpl in Hk. lia.
+    apply in_app_iff in Hs' as [H|[<-|[]]]; [exists (s_id s'), s'; auto|]. simpl in *. lia.
   - destruct (lookup st i) as [s0|] eqn:L; simpl in *; [|exists (s_id s'), s'; auto].
     destruct (lookup_Some _ _ _ L) as [k0 [_ [Hs0 [Hk0 U0]]]].
     apply tset_In in Hs' as [->|H]; [|exists (s_id s'), s'; auto]. simpl in *. exists (s_id s0), s0. auto.
@@ -699,13 +699,15 @@ Qed.
 Lemma count_occ_map_unique : forall (l : list sub) s,
   NoDup (map s_id l) -> In s l -> count_occ msg_eq_dec (map end_of l) (end_of s) = 1%nat.
 Proof.
-  induction l as [|x r IH]; simpl; intros s ND H; [contradiction|].
-  inversion ND as [|? ? NI ND']; subst.
+  induction l as [|x r IH]; intros s ND H; [contradiction|].
+  cbn [map] in *. inversion ND as [|? ? NI ND']; subst.
   destruct (msg_eq_dec (end_of x) (end_of s)) as [E|NE].
-  - f_equal. apply count_occ_not_In. intros C. apply in_map_iff in C as [y [Ey Hy]].
+  - rewrite (count_occ_cons_eq msg_eq_dec _ E). f_equal. apply count_occ_not_In.
+    intros C. apply in_map_iff in C as [y [Ey Hy]].
     apply NI. unfold end_of in E, Ey. inversion E. inversion Ey.
     replace (s_id x) with (s_id y) by congruence. now apply in_map.
-  - destruct H as [->|H]; [contradiction|]. now apply IH.
+  - rewrite (count_occ_cons_neq msg_eq_dec _ NE).
+    destruct H as [->|H]; [contradiction|]. now apply IH.
 Qed.
 
 Lemma stop_exactly_one_end : forall c st outs,
@@ -725,9 +727,8 @@ Proof.
   assert (forall k d e, In (End k d e) (map end_of fl) ->
           exists s, In s (st_table st) /\ s_id s = k /\ live c s (st_now st) /\ (d, e) = end_dest s) as Hex.
   { intros k d e H. apply in_map_iff in H as [s [E Hs]]. apply filter_In in Hs as [Hs B].
-    exists s. unfold end_of in E. inversion E; subst. repeat split; try assumption.
-    - now apply end_filter_live.
-    - now destruct (end_dest s). }
+    exists s. unfold end_of in E. inversion E; subst.
+    split; [assumption|split; [reflexivity|split; [now apply end_filter_live|now destruct (end_dest s)]]]. }
   split; [|split; [exact Hex|split; [|repeat split]]].
   - intros s Hs L. split.
     + apply count_occ_map_unique with (l := fl) (s := s).
@@ -824,4 +825,13 @@ Proof.
                           (fun s => is_none (s_unsub s) && is_valid c s (st_now st))).
     + apply list_eqb_refl. apply msg_eqb_refl.
     + intros x. rewrite live_b_deliverable. unfold deliverable. apply andb_comm.
+Qed.
+
+Lemma remaining_le_grant : forall c ops s,
+  In s (st_table (final c ops)) ->
+  rem_cs s (st_now (final c ops)) <= Z.max (round2 (s_expire s)) 0 /\ s_expire s <= c_maxd c.
+Proof.
+  intros c ops s H. destruct (Inv_final c ops) as [_ [F _]].
+  rewrite Forall_forall in F. destruct (F s H) as [_ [_ [Hs He]]].
+  split; [apply rem_cs_le_grant; exact Hs|exact He].
 Qed.
